@@ -12,7 +12,15 @@ cd "$VERIF_DIR"
 lc=$(echo "$ID" | tr 'A-Z' 'a-z')
 SCRATCH=$(mktemp -d /tmp/verif-$lc-XXXXXX)
 export VERIF_SCRATCH="$SCRATCH"
-trap 'rm -rf "$SCRATCH"' EXIT
+# The programs the harnesses generate and compile are large (tens of MB per compiled main package) and the Go build
+# cache keeps every one of them: a thorough run fills tens of GB per hour. Cache entries of that size are one-off
+# products; they are removed while the check runs and when it ends (entries younger than two minutes are left alone:
+# a build that is between compiling and linking may still need its own).
+GOC="$(go env GOCACHE 2>/dev/null)"
+trimcache() { [ -n "$GOC" ] && [ -d "$GOC" ] && find "$GOC" -type f -size +32M -mmin +2 -delete 2>/dev/null; return 0; }
+( while sleep 60; do trimcache; done ) >/dev/null 2>&1 &
+TRIMPID=$!
+trap 'kill $TRIMPID 2>/dev/null; trimcache; rm -rf "$SCRATCH"' EXIT
 mkdir -p evidence
 if [ -x "harness/$lc/run.sh" ]; then
   "harness/$lc/run.sh" "$TIER" "$@"
